@@ -13,6 +13,6 @@ echo "== stable tests with the change ($PKGS)"
 BASELINE_REPO="$WT" /verif/tools/baseline.py $PKGS | tail -4
 for c in $CHECKS; do
   echo "== check $c against the change"
-  VERIF_REPO="$WT" /verif/check "$c" quick 2>&1 | grep -E "VIOLATION|KNOWN-FINDING|BROKEN|quick:" | cut -c1-260 | head -12
+  VERIF_REPO="$WT" ${VERIF_CHECK:-/verif/check} "$c" quick 2>&1 | grep -E "VIOLATION|KNOWN-FINDING|BROKEN|quick:" | cut -c1-260 | head -12
   echo "exit=${PIPESTATUS[0]}"
 done
